@@ -30,4 +30,7 @@ def cases(seed=0, n=6):
     # wind / ravel index algebra
     for shape in ([3, 4], [1, 5], [4, 1]):
         out.append({'id': f'index-{shape}', 'fn': 'cf1d_index', 'shape': shape})
+    # numpy reshape in C / Fortran / 'A' index order on C- and Fortran-contiguous data (NP-RESHAPE-ORDER, NP-MEMORY-LAYOUT)
+    for layout, order, (shape, new) in itertools.product('CF', 'CFA', (([2, 6], [2, 2, 3]), ([3, 4], [12]), ([2, 3, 2], [6, 2]), ([6], [2, 3]))):
+        out.append({'id': f'reshape-{layout}-{order}-{shape}-{new}', 'fn': 'np_reshape', 'layout': layout, 'order': order, 'shape': shape, 'new': new})
     return out
